@@ -1,8 +1,8 @@
 (** C01 — rejection ABC returns exactly the best simulated draws, row-consistent.
     Model: Sched/Reject.v (buffer of n+b rows, merge, stable lexsort, state meta, batch estimator).
-    Proofs: Proofs/C01_Sorting.v, C01_Reject.v, C01_Estimator.v, C01_History.v. *)
+    Proofs: Proofs/C01_Sorting.v, C01_Reject.v, C01_Estimator.v, C01_History.v, C01_OkMeaning.v. *)
 From Coq Require Import List ZArith NArith Arith Bool Sorting.Permutation Sorting.Sorted PrimFloat Lia.
-From Elfi Require Import Sched.Sched Sched.Reject Proofs.C01_Sorting Proofs.C01_Reject Proofs.C01_Estimator Proofs.C01_History.
+From Elfi Require Import Sched.Sched Sched.Reject Proofs.C01_Sorting Proofs.C01_Reject Proofs.C01_Estimator Proofs.C01_History Proofs.C01_OkMeaning.
 Import ListNotations.
 
 (** After every history of consumed batches (any number, any content, at most batch_size rows each)
@@ -174,3 +174,66 @@ Example C01_history_example :
   | _ => false
   end = true.
 Proof. vm_compute. reflexivity. Qed.
+
+(** ---- what the check [ok] evaluated on the IMPLEMENTATION's result means ---- *)
+
+(** The property text, clause by clause, for a case [c] = the run's inputs (n_samples [c_n], batch_size
+    [c_b], the objective form [c_form]), every batch it consumed ([c_table]) and what the implementation
+    returned ([c_rows], [c_threshold], [c_n_sim], [c_n_batches]). [thr] is the threshold of a threshold-form
+    objective (None for the n_sim / quantile forms); [acc] the accepted draws among all consumed ones.
+    Draws are compared by Leibniz equality (discrepancy and row code: [deqb_eq], [draw_eqb_eq]), so
+    "with multiplicity" is a plain [Permutation]. *)
+Definition C01_ok_statement (c : case) : Prop :=
+  let thr := match c_form c with ByThreshold t _ => Some t | _ => None end in
+  let acc := filter (accepts thr) (concat (c_table c)) in
+  (* exactly n_samples rows are returned *)
+  length (c_rows c) = c_n c
+  (* in ascending order of discrepancy: an earlier row is no worse than any later row *)
+  /\ (forall i j, i < j < length (c_rows c) ->
+        dle (sdisc (nth i (c_rows c) None)) (sdisc (nth j (c_rows c) None)) = true)
+  (* every returned row holds a draw *)
+  /\ (forall s, In s (c_rows c) -> s <> None)
+  (* the returned rows are accepted consumed draws, each whole (discrepancy and row code from one draw)
+     and used at most as often as it was simulated; [rest] = the accepted consumed draws left out, none
+     of which is strictly better than the reported threshold *)
+  /\ (exists rest, Permutation (filled (c_rows c) ++ rest) acc
+                   /\ forall x, In x rest -> dle (c_threshold c) (d_disc x) = true)
+  (* the reported threshold is the discrepancy of the last (worst) returned row *)
+  /\ c_threshold c = sdisc (last (c_rows c) None)
+  (* n_sim = batch_size * n_batches, and n_batches counts the consumed batches *)
+  /\ c_n_sim c = c_b c * c_n_batches c
+  /\ c_n_batches c = length (c_table c)
+  (* with a simulation budget (n_sim or quantile form) exactly the objective's number of batches *)
+  /\ ((forall t maxp, c_form c <> ByThreshold t maxp) ->
+      c_n_batches c = fst (initial_objective (c_n c) (c_b c) (c_form c)))
+  (* with a threshold every returned row is within it *)
+  /\ (forall t, thr = Some t -> forall s, In s (c_rows c) -> dle (sdisc s) t = true).
+
+Theorem C01_ok_meaning : forall c, ok c = true -> C01_ok_statement c.
+Proof. exact ok_meaning. Qed.
+Print Assumptions C01_ok_meaning.
+
+(** and nothing more: the check accepts every result of which the statement holds *)
+Theorem C01_ok_iff_spec : forall c, ok c = true <-> C01_ok_statement c.
+Proof. exact ok_iff_spec. Qed.
+Print Assumptions C01_ok_iff_spec.
+
+(** hence every returned row is no worse than every accepted consumed draw left out *)
+Theorem C01_ok_rows_best :
+  forall c, ok c = true ->
+    exists rest,
+      Permutation (filled (c_rows c) ++ rest)
+                  (filter (accepts (match c_form c with ByThreshold t _ => Some t | _ => None end)) (concat (c_table c)))
+      /\ forall x s, In x rest -> In s (c_rows c) -> dle (sdisc s) (d_disc x) = true.
+Proof. exact ok_rows_best. Qed.
+Print Assumptions C01_ok_rows_best.
+
+(** Non-vacuity: n_samples 2, batch_size 2, budget n_sim = 4 (two batches); the two best draws pass, and
+    the same result with the second-best draw replaced by a worse consumed one does not. *)
+Example C01_ok_example :
+  let t := [[dz 2 0; di 1]; [di 2; dz 0 3]] in
+  let c rows thr := {| c_n := 2; c_b := 2; c_form := ByNsim 4; c_table := t; c_rows := rows;
+                       c_threshold := thr; c_n_sim := 4; c_n_batches := 2 |} in
+  ok (c [Some (dz 0 3); Some (dz 2 0)] (Fin 2)) = true
+  /\ ok (c [Some (dz 0 3); Some (di 1)] PInf) = false.
+Proof. vm_compute. split; reflexivity. Qed.
